@@ -22,6 +22,8 @@ pub struct Opts {
     /// print per-run hashes (determinism self-test)
     pub emit_hashes: bool,
     pub write_evidence: bool,
+    /// configuration the workers run under (set by run_check per configuration)
+    pub config: Option<crate::engine::Config>,
 }
 
 // ------------------------------------------------------------------------------------------
@@ -29,12 +31,12 @@ pub struct Opts {
 // ------------------------------------------------------------------------------------------
 
 /// `cosim worker <id> --tier T --seed S --from A --to B`
-pub fn worker_main(engine: &'static dyn Engine, tier: Tier, seed: u64, from: u64, to: u64, emit_hashes: bool) -> i32 {
+pub fn worker_main(engine: &'static dyn Engine, tier: Tier, seed: u64, from: u64, to: u64, emit_hashes: bool, config: String) -> i32 {
     let stack = engine.stack_size();
     let h = std::thread::Builder::new()
         .name("cosim-run".into())
         .stack_size(stack)
-        .spawn(move || worker_body(engine, tier, seed, from, to, emit_hashes))
+        .spawn(move || worker_body(engine, tier, seed, from, to, emit_hashes, config))
         .expect("spawn run thread");
     match h.join() {
         Ok(code) => code,
@@ -45,7 +47,7 @@ pub fn worker_main(engine: &'static dyn Engine, tier: Tier, seed: u64, from: u64
     }
 }
 
-fn worker_body(engine: &'static dyn Engine, tier: Tier, seed: u64, from: u64, to: u64, emit_hashes: bool) -> i32 {
+fn worker_body(engine: &'static dyn Engine, tier: Tier, seed: u64, from: u64, to: u64, emit_hashes: bool, config: String) -> i32 {
     let out = std::io::stdout();
     let mut out = std::io::BufWriter::with_capacity(1 << 16, out.lock());
     let mut stats = RunStats::default();
@@ -58,7 +60,10 @@ fn worker_body(engine: &'static dyn Engine, tier: Tier, seed: u64, from: u64, to
     while i < to {
         let end = (i + batch).min(to);
         for run in i..end {
-            let t = engine.gen(seed, run, tier);
+            let mut t = engine.gen(seed, run, tier);
+            if config != "default" {
+                t.set_meta("config", config.clone());
+            }
             if emit_hashes {
                 let _ = writeln!(out, "T {} {:016x}", run, t.hash());
             }
@@ -231,7 +236,10 @@ fn describe_status(st: &std::process::ExitStatus) -> String {
 }
 
 fn spawn_worker(engine: &dyn Engine, opts: &Opts, from: u64, to: u64) -> std::io::Result<Child> {
-    let exe = std::env::current_exe()?;
+    let exe = match opts.config.as_ref().and_then(|c| c.exe) {
+        Some(p) => std::path::PathBuf::from(p),
+        None => std::env::current_exe()?,
+    };
     let mut cmd = Command::new(exe);
     cmd.arg("worker")
         .arg(engine.id())
@@ -245,6 +253,9 @@ fn spawn_worker(engine: &dyn Engine, opts: &Opts, from: u64, to: u64) -> std::io
         .arg(to.to_string());
     if opts.emit_hashes {
         cmd.arg("--emit-hashes");
+    }
+    if let Some(c) = &opts.config {
+        cmd.arg("--config").arg(c.name);
     }
     cmd.stdin(Stdio::null()).stdout(Stdio::piped()).stderr(Stdio::piped());
     cmd.spawn()
@@ -457,7 +468,12 @@ fn process_range(engine: &dyn Engine, opts: &Opts, from: u64, to: u64) -> Merged
                 }
                 match culprit {
                     Some((i, how3, hang3)) => {
-                        let t = engine.gen(opts.seed, i, opts.tier);
+                        let mut t = engine.gen(opts.seed, i, opts.tier);
+                        if let Some(c) = &opts.config {
+                            if c.name != "default" {
+                                t.set_meta("config", c.name);
+                            }
+                        }
                         let inv = if hang3 { format!("{}.hang", engine.id()) } else { engine.death_invariant() };
                         total.violations.push((i, Violation::new(inv, how3), t));
                         total.counters.inc("violating_runs");
@@ -490,7 +506,16 @@ pub fn exec_child(engine: &dyn Engine, t: &Trace, tmp_tag: &str) -> Result<Optio
 }
 
 pub fn exec_file(engine: &dyn Engine, path: &str) -> Result<Option<Violation>, HarnessError> {
-    let exe = std::env::current_exe().map_err(|e| HarnessError(e.to_string()))?;
+    let mut exe = std::env::current_exe().map_err(|e| HarnessError(e.to_string()))?;
+    if let Ok(text) = std::fs::read_to_string(path) {
+        if let Some(cfg) = text.lines().find_map(|l| l.strip_prefix("meta config=")) {
+            if let Some(c) = engine.configurations().into_iter().find(|c| c.name == cfg) {
+                if let Some(p) = c.exe {
+                    exe = std::path::PathBuf::from(p);
+                }
+            }
+        }
+    }
     let mut child = Command::new(exe)
         .arg("exec")
         .arg("--replay")
@@ -700,19 +725,34 @@ pub fn run_check(engine: &'static dyn Engine, opts: &Opts) -> CheckOutcome {
         n,
         jobs
     );
-    // fixed partition into `jobs` contiguous ranges, processed in parallel
+    // per configuration: fixed partition into `jobs` contiguous ranges, processed in parallel
     let merged_all = Arc::new(Mutex::new(Merged::default()));
-    std::thread::scope(|s| {
-        for w in 0..jobs as u64 {
-            let from = n * w / jobs as u64;
-            let to = n * (w + 1) / jobs as u64;
-            let merged_all = merged_all.clone();
-            s.spawn(move || {
-                let m = process_range(engine, opts, from, to);
-                merged_all.lock().unwrap().absorb(m);
-            });
+    for cfg in engine.configurations() {
+        if let Some(p) = cfg.exe {
+            if !std::path::Path::new(p).exists() {
+                eprintln!("harness error: worker executable {} for configuration {} is missing (run ./check build)", p, cfg.name);
+                return CheckOutcome { exit: 2, run_hashes: vec![] };
+            }
         }
-    });
+        let n_cfg = n * cfg.share.0 / cfg.share.1;
+        let jobs_cfg = jobs.min(n_cfg.max(1) as usize);
+        let copts = Opts { tier: opts.tier, seed: opts.seed, jobs: opts.jobs, runs: opts.runs, emit_hashes: opts.emit_hashes, write_evidence: opts.write_evidence, config: Some(cfg.clone()) };
+        let before = merged_all.lock().unwrap().completed;
+        std::thread::scope(|s| {
+            for w in 0..jobs_cfg as u64 {
+                let from = n_cfg * w / jobs_cfg as u64;
+                let to = n_cfg * (w + 1) / jobs_cfg as u64;
+                let merged_all = merged_all.clone();
+                let copts = &copts;
+                s.spawn(move || {
+                    let m = process_range(engine, copts, from, to);
+                    merged_all.lock().unwrap().absorb(m);
+                });
+            }
+        });
+        let done = merged_all.lock().unwrap().completed - before;
+        merged_all.lock().unwrap().counters.add(&format!("runs:config:{}", cfg.name), done);
+    }
     let mut merged = std::mem::take(&mut *merged_all.lock().unwrap());
     merged.violations.sort_by(|a, b| a.0.cmp(&b.0));
     merged.run_hashes.sort();
